@@ -158,6 +158,7 @@ fn gen_probes(tier: &str, r: &mut Rng, emit: &mut dyn FnMut(Case)) {
     for _ in 0..400 * scale { let (b, t) = schema_probe_input(r); jobs.push(("c08.schema_probe".into(), vec![gbytes(&b)])); meta.push(("c08.schema_probe", "c08.schema_probe.post", t)); }
     for _ in 0..600 * scale { let (b, t) = avro_longs_input(r); jobs.push(("c08.avro_longs".into(), vec![gbytes(&b)])); meta.push(("c08.avro_longs", "c08.avro_longs.post", t)); }
     for _ in 0..600 * scale { let (a, t) = ipc_batch_input(r); jobs.push(("c08.ipc_batch".into(), a)); meta.push(("c08.ipc_batch", "c08.ipc_batch.post", t)); }
+    for (a, t) in dict_page_jobs(tier, r) { jobs.push(("c08.dict_read".into(), a)); meta.push(("c08.dict_read", "c08.outcome.post", t)); }
     let t0 = std::time::Instant::now();
     let outs = run_batch_wd(jobs.clone(), 1500, 15000);   // probes are tiny: milliseconds when they terminate
     eprintln!("c08: {} probes executed in {:.1}s", outs.len(), t0.elapsed().as_secs_f64());
